@@ -68,3 +68,25 @@ package module
 //@     invariant snap(iterator) == view(parsedval(source)) && 0 <= pos(iterator) && pos(iterator) <= len(snap(iterator)) && index == pos(iterator) && len(converted) == len(snap(iterator)) && fresh(converted)
 //@     invariant forall j :: 0 <= j && j < index ==> converted[j] == snap(iterator)[j]
 //@     decreases len(snap(iterator)) - pos(iterator)
+
+// Array[V]: a size, a Go array, or CDCN source (one data argument)
+//@ func Array
+//@   props C20
+//@   nilok
+//@   requires len(arguments) == 1
+//@   ensures[C20] result != nil && fresh(result)
+//@   ensures[C20] typeis(arguments[0], "uint") ==> view(result) == zeros(unboxInt(arguments[0]), zero(V))
+//@   ensures[C20] typeis(arguments[0], sliceof(V)) ==> view(result) == view(unboxSlice(arguments[0]))
+//@   ensures[C20] typeis(arguments[0], "string") ==> view(result) == view(parsedval(unboxStr(arguments[0])))
+//@   xensures[C20] !typeis(arguments[0], sliceof(V))
+//@   loop 1:
+//@     invariant -1 <= rangeindex && rangeindex <= 0 && rangeindex < len(arguments) && notation != nil
+//@     invariant rangeindex == -1 ==> size == 0 && len(values) == 0 && arr(values) == nil && sequence == nil && source == ""
+//@     invariant rangeindex == 0 && typeis(arguments[0], "uint") ==> size == unboxInt(arguments[0]) && len(values) == 0 && sequence == nil && source == ""
+//@     invariant rangeindex == 0 && typeis(arguments[0], sliceof(V)) ==> size == 0 && values == unboxSlice(arguments[0]) && sequence == nil && source == ""
+//@     invariant rangeindex == 0 && typeis(arguments[0], "string") ==> size == 0 && source == unboxStr(arguments[0]) && len(values) == 0 && sequence == nil
+//@     decreases 1 - rangeindex
+//@   loop 2:
+//@     invariant array != nil && fresh(array) && snap(iterator) == view(parsedval(source)) && 0 <= pos(iterator) && pos(iterator) <= len(snap(iterator)) && index == pos(iterator) + 1
+//@     invariant len(view(array)) == len(snap(iterator)) && (forall j :: 0 <= j && j < pos(iterator) ==> view(array)[j] == snap(iterator)[j])
+//@     decreases len(snap(iterator)) - pos(iterator)
